@@ -34,6 +34,9 @@ meta={"breaks_property":pid,"needs_to_manifest":needs,
  "demo_with_change":d.get('demo with the change','').strip()[-300:],
  "suite_with_change":d.get('test-suite with the change','').strip()[-200:],
  "confirmed_by":"tools/confirm_mutant.sh in a scratch worktree of /repo (removed afterwards)"}
+import os
+if os.path.exists(out+'/meta.json'):
+    old=json.load(open(out+'/meta.json')); old.update(meta); meta=old
 json.dump(meta,open(out+'/meta.json','w'),indent=1)
 print(out, meta["demo_unchanged"][-60:].replace('\n',' '),'|',meta["demo_with_change"][-60:].replace('\n',' '),'|',meta["suite_with_change"][-80:].replace('\n',' '))
 PY
